@@ -72,7 +72,11 @@ set_option maxRecDepth 100000 in
 /-- keys of unknown `kid`s are looked up again (rate limited), and the constructor insists on issuer and audience -/
 theorem tie_oidc_misc :
     Gen.Authn.keyfuncOptions = "keyfunc.Options{ Client: oidc.httpClient, RefreshInterval: jwkRefreshInterval, RefreshUnknownKID: true, RefreshRateLimit: jwkRefreshRateLimit, }" ∧
-    Gen.Authn.skOidcNew.take 6 = ["if mainIssuer == \"\" {", "return nil, ErrMissingIssuer", "}", "if audience == \"\" {", "return nil, ErrMissingAudience", "}"] := by
+    Gen.Authn.skOidcNew = ["if mainIssuer == \"\" {", "return nil, ErrMissingIssuer", "}", "if audience == \"\" {", "return nil, ErrMissingAudience", "}",
+      "client := retryablehttp.NewClient()", "client.Logger = nil",
+      "oidc := &RemoteOidcAuthenticator{ MainIssuer: mainIssuer, IssuerAliases: issuerAliases, Audience: audience, Subjects: subjects, httpClient: client.StandardClient(), ClientIDClaims: clientIDClaims, }",
+      "if len(oidc.ClientIDClaims) == 0 {", "oidc.ClientIDClaims = []string{\"azp\", \"client_id\"}", "}",
+      "err := fetchJWKs(oidc)", "if err != nil {", "return nil, err", "}", "return oidc, nil"] := by
   decide
 
 set_option maxRecDepth 100000 in
